@@ -193,6 +193,23 @@ theorem import_rendered (w : World) (tbl : List Entry) (uses : List Use)
   simp only [Bool.and_eq_true, beq_iff_eq] at hp
   exact ⟨e, he, hp.1.1.1, hp.1.1.2, times_eq_one_perFile w e.guard hp.1.2 hp.2⟩
 
+/-- A reference the decidable check covers has its declaration rendered (once per type) whenever
+the reference itself is rendered. -/
+theorem reference_declared (w : World) (tbl : List Entry) (loop : String) (refs : List Ref)
+    (h : refsCovered tbl loop refs w.opt = true) (hc : w.count loop = 1) :
+    ∀ r ∈ refs, times w r.guard ≠ 0 →
+      ∃ e ∈ tbl, e.kind = r.kind ∧ e.name = r.name ∧ times w e.guard = 1 := by
+  intro r hr ht
+  have h1 := (List.all_eq_true.mp h) r hr
+  have ho : optsHold w.opt r.guard = true := by
+    cases hh : optsHold w.opt r.guard with
+    | true => rfl
+    | false => exact absurd (times_eq_zero w r.guard hh) ht
+  simp only [ho, Bool.not_true, Bool.false_or] at h1
+  obtain ⟨e, he, hp⟩ := List.any_eq_true.mp h1
+  simp only [Bool.and_eq_true, beq_iff_eq] at hp
+  exact ⟨e, he, hp.1.1.1, hp.1.1.2, times_eq_one w loop e.guard hp.1.2 hp.2 hc⟩
+
 /-! ## The regenerated tables meet the specification (finite part: `decide`) -/
 
 /-- Obligation on `enumTemplate.gotmpl`, all 2^5 option settings. -/
@@ -203,6 +220,19 @@ theorem genum_table_ok : ∀ j y t c d : Bool,
         neverDeclared genumEntries (GenumOpts.env ⟨j, y, t, c, d⟩) m) = true
     ∧ usesCovered genumEntries genumUses (GenumOpts.env ⟨j, y, t, c, d⟩) = true
     ∧ perElement genumEntries genumLoop genumTraitLoop (GenumOpts.env ⟨j, y, t, c, d⟩) = 1 := by
+  decide
+
+/-- Obligation on `enumTemplate.gotmpl`, all 2^5 option settings: no rendered call of a generated
+method or function whose declaration the same setting switches off. -/
+theorem genum_refs_ok : ∀ j y t c d : Bool,
+    refsCovered genumEntries genumLoop genumRefs (GenumOpts.env ⟨j, y, t, c, d⟩) = true := by
+  decide
+
+theorem gerror_refs_ok : ∀ skip : Bool,
+    refsCovered gerrorEntries gerrorLoop gerrorRefs (gerrorEnv skip) = true := by
+  decide
+
+theorem gsort_refs_ok : refsCovered gsortEntries gsortLoop gsortRefs noOpts = true := by
   decide
 
 /-- Obligation on `gerror.gotmpl`, with and without `-skipConvertGen`. -/
@@ -262,6 +292,23 @@ theorem genum_imports_cover_references (o : GenumOpts) (w : World) (hw : w.opt =
       ∃ e ∈ genumEntries, e.kind = .imp ∧ e.recv = u.pkg ∧ times w e.guard = 1 := by
   obtain ⟨j, y, t, c, d⟩ := o
   exact import_rendered w genumEntries genumUses (by rw [hw]; exact (genum_table_ok j y t c d).2.2.1)
+
+/-- genum: whenever a call of a generated method or function is rendered (e.g. `UnmarshalJSON`
+calling `Parse«T»`, `MarshalText` calling `e.String()`), the declaration it calls is rendered
+too - under every option setting and for every definition.  No marshaler section depends on a
+section that another switch controls. -/
+theorem genum_references_declared (o : GenumOpts) (w : World) (hw : w.opt = o.env)
+    (hc : w.count genumLoop = 1) :
+    ∀ r ∈ genumRefs, times w r.guard ≠ 0 →
+      ∃ e ∈ genumEntries, e.kind = r.kind ∧ e.name = r.name ∧ times w e.guard = 1 := by
+  obtain ⟨j, y, t, c, d⟩ := o
+  exact reference_declared w genumEntries genumLoop genumRefs (by rw [hw]; exact genum_refs_ok j y t c d) hc
+
+theorem gerror_references_declared (skip : Bool) (w : World) (hw : w.opt = gerrorEnv skip)
+    (hc : w.count gerrorLoop = 1) :
+    ∀ r ∈ gerrorRefs, times w r.guard ≠ 0 →
+      ∃ e ∈ gerrorEntries, e.kind = r.kind ∧ e.name = r.name ∧ times w e.guard = 1 :=
+  reference_declared w gerrorEntries gerrorLoop gerrorRefs (by rw [hw]; exact gerror_refs_ok skip) hc
 
 /-- genum: `-disableTraits` (and only it) makes the generator see no trait. -/
 theorem genum_traits_seen (o : GenumOpts) (traits : List String) :
